@@ -59,9 +59,17 @@ type faultCase struct {
 	// has copied PeerAt-1 bytes of its second pass, and the other writer then carries on. Only halts are injected here
 	// ("the process stops"): a Put that *fails* truncates the output it shares with the running writer, see DESIGN.
 	PeerAt int `json:"peer_at,omitempty"`
-	K      int `json:"k"`    // operation index of the file-operation fault (-1: none)
-	Kind   int `json:"kind"` // fos.Kind
-	Cut    int `json:"cut"`
+	// Observer: the reverse nesting, with a source that hands out other data from offset Src.At of its second pass on: when
+	// the faulty Put's second pass gets there, a second handle on the directory (unmodified cache package, healthy source)
+	// stores the same content under its own id - completing the output file the faulty Put is part-way through - and
+	// looks it up once; the faulty Put then carries on over the completed file with its other bytes until it notices, fails
+	// or halts. That same handle (a process that lives on) does the lookups afterwards.
+	Observer bool `json:"observer,omitempty"`
+	// ViaBytes: the data is stored through PutBytes instead of Put with a reader (honest source only)
+	ViaBytes bool `json:"via_bytes,omitempty"`
+	K        int  `json:"k"`    // operation index of the file-operation fault (-1: none)
+	Kind     int  `json:"kind"` // fos.Kind
+	Cut      int  `json:"cut"`
 }
 
 const (
@@ -96,10 +104,12 @@ func cacheDir() (string, error) {
 
 // flaky is a ReadSeeker that misbehaves from a given pass and offset on.
 type flaky struct {
-	data []byte
-	f    srcFault
-	pass int
-	off  int
+	data   []byte
+	f      srcFault
+	pass   int
+	off    int
+	zeroed bool   // mode "zero": the one (0, nil) read has happened
+	inside func() // run once when the misbehaviour offset of the misbehaving pass is reached
 }
 
 func (s *flaky) Seek(off int64, whence int) (int64, error) {
@@ -116,12 +126,24 @@ func (s *flaky) Read(p []byte) (int, error) {
 		return 0, nil
 	}
 	active := s.f.Mode != "" && s.pass >= s.f.Pass
+	if active && s.off >= s.f.At && s.inside != nil {
+		fn := s.inside
+		s.inside = nil
+		fn()
+	}
 	if active && s.off >= s.f.At {
 		switch s.f.Mode {
 		case "eof":
 			return 0, io.EOF
 		case "err":
 			return 0, errors.New("source: read failed")
+		case "zero":
+			// a reader that has nothing ready for the moment: (0, nil) once, which io.Reader discourages and allows;
+			// the data it hands over is complete and unchanged (an honest source)
+			if !s.zeroed && s.pass == s.f.Pass && s.off == s.f.At {
+				s.zeroed = true
+				return 0, nil
+			}
 		}
 	}
 	if s.off >= len(s.data) {
@@ -224,7 +246,13 @@ func validCase(c faultCase) bool {
 			return false
 		}
 	}
-	return c.Kind >= 0 && c.Kind <= int(fos.CrashAfterShortWrite)
+	if c.Observer {
+		n := len(cachekit.Content(c.Data))
+		if c.PeerAt > 0 || c.Src.Mode != "change" || c.Src.Pass != 2 || c.Src.At < 0 || c.Src.At >= n || c.Damage != "" || c.Shared || c.Dangling || c.Leftover || c.Prev == c.Data || c.ViaBytes || n < 2 {
+			return false
+		}
+	}
+	return c.Kind >= 0 && c.Kind <= int(fos.FailOpensFrom)
 }
 
 // peerSrc is the healthy source of the concurrent writer: in its second pass it hands out the bytes before offset at,
@@ -279,12 +307,16 @@ func runPutWithPeer(d string, c faultCase) (ops []fos.Op, putErr error, crashed 
 
 // runPut performs the faulty Put through the instrumented cache; it returns the operation trace.
 func runPut(d string, c faultCase) (ops []fos.Op, putErr error, crashed bool, fail *vt.Fail) {
+	return runPutInside(d, c, nil)
+}
+
+func runPutInside(d string, c faultCase, inside func()) (ops []fos.Op, putErr error, crashed bool, fail *vt.Fail) {
 	xc, err := cachex.Open(d)
 	if err != nil {
 		return nil, nil, false, vt.Failf("HARNESS-openx", "%v", err)
 	}
 	data := cachekit.Content(c.Data)
-	src := &flaky{data: data, f: c.Src}
+	src := &flaky{data: data, f: c.Src, inside: inside}
 	fos.Begin(fos.Plan{K: c.K, Kind: fos.Kind(c.Kind), Cut: c.Cut})
 	func() {
 		defer func() {
@@ -294,7 +326,11 @@ func runPut(d string, c faultCase) (ops []fos.Op, putErr error, crashed bool, fa
 				}
 			}
 		}()
-		_, _, putErr = xc.Put(cachex.ActionID(cachekit.ID(targetID)), src)
+		if c.ViaBytes && c.Src.Mode == "" {
+			putErr = xc.PutBytes(cachex.ActionID(cachekit.ID(targetID)), data)
+		} else {
+			_, _, putErr = xc.Put(cachex.ActionID(cachekit.ID(targetID)), src)
+		}
 	}()
 	ops, _, crashed = fos.End()
 	return
@@ -321,9 +357,66 @@ func checkFault(c faultCase) *vt.Fail {
 		}
 		return verify(d, c, ops, putErr, crashed)
 	}
+	if c.Observer {
+		return checkObserver(d, c)
+	}
 	ops, putErr, crashed, f := runPut(d, c)
 	if f != nil {
 		return f
+	}
+	return verify(d, c, ops, putErr, crashed)
+}
+
+// checkObserver: see faultCase.Observer.
+func checkObserver(d string, c faultCase) *vt.Fail {
+	pc, err := cache.Open(d)
+	if err != nil {
+		return vt.Failf("HARNESS-open", "%v", err)
+	}
+	id := cache.ActionID(cachekit.ID(peerID))
+	data := cachekit.Content(c.Data)
+	var inner *vt.Fail
+	fired := false
+	ops, putErr, crashed, f := runPutInside(d, c, func() {
+		fired = true
+		if err := pc.PutBytes(id, data); err != nil {
+			inner = vt.Failf("HARNESS-observer", "the second handle's Put failed: %v", err)
+			return
+		}
+		if b, _, err := pc.GetBytes(id); err != nil || !bytes.Equal(b, data) {
+			inner = vt.Failf("put-returned-nil-but-not-stored", "the second handle's Put returned nil while the faulty Put was at offset %d of its second pass, yet its GetBytes(id%d) gives %d bytes, err %v", c.Src.At, peerID, len(b), err)
+		}
+	})
+	if f != nil {
+		return f
+	}
+	if inner != nil {
+		return inner
+	}
+	if fired {
+		ctx := fmt.Sprintf("a second handle stored the same content as id%d and looked it up when the faulty Put was at offset %d of its second pass; that handle is asked again afterwards. %s", peerID, c.Src.At, describe(c, ops, putErr, crashed))
+		for round := 0; round < 2; round++ {
+			b, e, err := pc.GetBytes(id)
+			if err == nil {
+				if sha256.Sum256(b) != e.OutputID {
+					return vt.Failf("getbytes-unverified", "GetBytes(id%d) returns %d bytes whose SHA-256 is not the reported OutputID. %s", peerID, len(b), ctx)
+				}
+			} else if !notFound(err) {
+				return vt.Failf("getbytes-other-error", "GetBytes(id%d): %v. %s", peerID, err, ctx)
+			}
+		}
+		// (and a fresh handle; checksum-verified lookups only: the file GetFile names is checked by size alone, and a
+		// completed output that a writer with a changing source then scribbles over and halts on keeps its size in the
+		// unchanged code too - recorded in DESIGN as an observation, outside the single Put the statement is about)
+		rc, err := cache.Open(d)
+		if err != nil {
+			return vt.Failf("HARNESS-open", "%v", err)
+		}
+		if b, e, err := rc.GetBytes(id); err == nil && sha256.Sum256(b) != e.OutputID {
+			return vt.Failf("getbytes-unverified", "GetBytes(id%d) through a fresh handle returns %d bytes whose SHA-256 is not the reported OutputID. %s", peerID, len(b), ctx)
+		} else if err != nil && !notFound(err) {
+			return vt.Failf("getbytes-other-error", "GetBytes(id%d): %v. %s", peerID, err, ctx)
+		}
 	}
 	return verify(d, c, ops, putErr, crashed)
 }
@@ -369,6 +462,12 @@ func describe(c faultCase, ops []fos.Op, putErr error, crashed bool) string {
 	if c.PeerAt > 0 {
 		peer = fmt.Sprintf(" other-writer-at=%d", c.PeerAt-1)
 	}
+	if c.ViaBytes {
+		peer += " via=PutBytes"
+	}
+	if c.Observer {
+		peer += " second-handle-stores-and-looks-up-inside"
+	}
 	return fmt.Sprintf("scenario{prev=%d data=%d(%d bytes) shared=%v dangling=%v leftover=%v damage=%q"+peer+"} source=%+v fault{op %d=%s kind=%s cut=%d} -> Put err=%v crashed=%v; trace=%v",
 		c.Prev, c.Data, len(cachekit.Content(c.Data)), c.Shared, c.Dangling, c.Leftover, c.Damage, c.Src, c.K, op, fos.Kind(c.Kind), c.Cut, putErr, crashed, tr)
 }
@@ -394,6 +493,13 @@ func verify(d string, c faultCase, ops []fos.Op, putErr error, crashed bool) *vt
 			if sha256.Sum256(b) != e.OutputID {
 				return vt.Failf("getbytes-unverified", "GetBytes(id%d) returns %d bytes whose SHA-256 is not the reported OutputID. %s", i, len(b), ctx)
 			}
+			if c.Damage == "" && !crashed && int64(len(b)) != e.Size {
+				// A Put whose index write fails removes the entry (the property's last mechanism), so from an undamaged
+				// start no entry is left that pairs this Put's output with the previous Put's size. (After a *halt* in the
+				// middle of the index write such a pair can remain in the unchanged code - GetBytes then still returns
+				// hash-verified bytes, which is all the statement promises - so halted runs are not held to this.)
+				return vt.Failf("getbytes-size-mismatch", "GetBytes(id%d) returns %d bytes but reports an entry of size %d. %s", i, len(b), e.Size, ctx)
+			}
 		} else if !notFound(err) {
 			return vt.Failf("getbytes-other-error", "GetBytes(id%d): %v. %s", i, err, ctx)
 		}
@@ -417,6 +523,14 @@ func verify(d string, c faultCase, ops []fos.Op, putErr error, crashed bool) *vt
 					return vt.Failf("entry-with-same-content-lost", "id%d held the same content before the failing Put and is now unreadable: %v. %s", i, err, ctx)
 				}
 			}
+		}
+	}
+	if putErr == nil && !crashed && c.Damage == "" && (c.Src.Mode == "" || c.Src.Mode == "zero") {
+		// C05's first sentence under faults: a Put that returned without error - whatever failed on the way and was
+		// absorbed - has stored the data. (Undamaged start, honest source: with a pre-damaged output an absorbed Stat
+		// failure can leave the damage in place, and a source that misbehaves has not handed over "the data".)
+		if b, _, err := rc.GetBytes(cache.ActionID(cachekit.ID(targetID))); err != nil || !bytes.Equal(b, data) {
+			return vt.Failf("put-returned-nil-but-not-stored", "Put returned nil, yet GetBytes(id%d) gives %d bytes, err %v instead of the %d bytes stored. %s", targetID, len(b), err, len(data), ctx)
 		}
 	}
 	for i := 0; i < c.Unrelated && i < 3; i++ {
@@ -466,15 +580,20 @@ var scenarios = []faultCase{
 	{Prev: -1, Data: 2, Dangling: true, Src: srcFault{Mode: "change", Pass: 2, At: 70}}, {Prev: -1, Data: 5, Src: srcFault{Mode: "change", Pass: 2, At: 2048}},
 	{Prev: -1, Data: 5, Dangling: true, Src: srcFault{Mode: "err", Pass: 2, At: 2048}}, {Prev: 2, Data: 5, Src: srcFault{Mode: "eof", Pass: 2, At: 4000}},
 	{Prev: -1, Data: 5, Shared: true, Src: srcFault{Mode: "extra", Pass: 2}},
+	// the same through the PutBytes entry point
+	{Prev: -1, Data: 5, ViaBytes: true}, {Prev: 2, Data: 5, ViaBytes: true}, {Prev: -1, Data: 5, Shared: true, ViaBytes: true}, {Prev: 5, Data: 5, ViaBytes: true}, {Prev: -1, Data: 0, Shared: true, ViaBytes: true},
 	// another writer is part-way through storing the same content (halts only)
 	{Prev: -1, Data: 5, PeerAt: 1}, {Prev: -1, Data: 5, PeerAt: 2}, {Prev: -1, Data: 5, PeerAt: 2049}, {Prev: -1, Data: 5, PeerAt: 4097}, {Prev: 2, Data: 5, PeerAt: 4096},
 	{Prev: -1, Data: 2, PeerAt: 70}, {Prev: 5, Data: 2, PeerAt: 139}, {Prev: -1, Data: 4, PeerAt: 4096},
+	// a second handle completes and looks up the same content in the middle of a Put whose source changed
+	{Prev: -1, Data: 5, Observer: true, Src: srcFault{Mode: "change", Pass: 2, At: 0}}, {Prev: -1, Data: 5, Observer: true, Src: srcFault{Mode: "change", Pass: 2, At: 2048}},
+	{Prev: 2, Data: 5, Observer: true, Src: srcFault{Mode: "change", Pass: 2, At: 4096}}, {Prev: -1, Data: 2, Observer: true, Src: srcFault{Mode: "change", Pass: 2, At: 70}},
 }
 
-var kinds = []fos.Kind{fos.FailBefore, fos.ShortWriteThenFail, fos.CrashBefore, fos.CrashAfter, fos.CrashAfterShortWrite}
+var kinds = []fos.Kind{fos.FailBefore, fos.ShortWriteThenFail, fos.CrashBefore, fos.CrashAfter, fos.CrashAfterShortWrite, fos.FailOpensFrom}
 
 var srcModes = []srcFault{{}, {Mode: "err", Pass: 1}, {Mode: "err", Pass: 2}, {Mode: "eof", Pass: 1}, {Mode: "eof", Pass: 2}, {Mode: "extra", Pass: 1}, {Mode: "extra", Pass: 2},
-	{Mode: "change", Pass: 2}, {Mode: "seekerr", Pass: 1}, {Mode: "seekerr", Pass: 2}}
+	{Mode: "change", Pass: 2}, {Mode: "seekerr", Pass: 1}, {Mode: "seekerr", Pass: 2}, {Mode: "zero", Pass: 1}, {Mode: "zero", Pass: 2}}
 
 type cell struct{ total, nontrivial int64 }
 
@@ -654,9 +773,20 @@ func genFault(t *rapid.T) faultCase {
 		c.Src = rapid.SampledFrom(srcModes[1:]).Draw(t, "src")
 		c.Src.At = rapid.IntRange(0, len(cachekit.Content(c.Data))).Draw(t, "at")
 	}
+	if c.Src.Mode == "" && rapid.IntRange(0, 2).Draw(t, "viabytes") == 1 {
+		c.ViaBytes = true
+	}
 	c.K = rapid.IntRange(-1, 16).Draw(t, "k")
 	c.Kind = int(rapid.SampledFrom(kinds).Draw(t, "kind"))
 	c.Cut = rapid.IntRange(0, 5000).Draw(t, "cut")
+	if n := len(cachekit.Content(c.Data)); n >= 2 && rapid.IntRange(0, 7).Draw(t, "observer") == 3 {
+		o := faultCase{Prev: c.Prev, Data: c.Data, Unrelated: c.Unrelated, K: c.K, Kind: c.Kind, Cut: c.Cut, Observer: true}
+		o.Src = srcFault{Mode: "change", Pass: 2, At: rapid.IntRange(0, n-1).Draw(t, "observerat")}
+		if o.Prev == o.Data {
+			o.Prev = -1
+		}
+		return o
+	}
 	if n := len(cachekit.Content(c.Data)); n >= 2 && rapid.IntRange(0, 4).Draw(t, "peer") == 3 {
 		// another writer of the same content at a drawn offset; halts only, plain scenario
 		p := faultCase{Prev: c.Prev, Data: c.Data, Unrelated: c.Unrelated, K: c.K, Cut: c.Cut, PeerAt: 1 + rapid.IntRange(0, n-1).Draw(t, "peerat")}
@@ -677,6 +807,9 @@ func TestRandomProduct(t *testing.T) {
 		}
 		if c.PeerAt > 0 {
 			cl = append(cl, "other-writer-of-same-content")
+		}
+		if c.Observer {
+			cl = append(cl, "second-handle-completes-and-looks-up-inside")
 		}
 		return vt.Meta{NonTrivial: c.K >= 3 || c.Src.Mode != "", Classes: cl}
 	}}, vt.N(1500, 20000))
